@@ -9,6 +9,7 @@ package main
 
 import (
 	"bytes"
+	"crypto/sha256"
 	"encoding/hex"
 	"fmt"
 	"io"
@@ -619,7 +620,11 @@ func standaloneInputs(seed int64) (keys [][]byte, msgs [][]byte) {
 	}
 	m := make([]byte, 32)
 	g.Read(m)
-	return keys, [][]byte{m, append(append([]byte{}, m...), 0x00), {0x42}}
+	m33 := append(append([]byte{}, m...), 0x00)
+	// ... and the SHA-256 digests of the two messages that are not 32 bytes long: a signer that replaces such a
+	// message by its digest somewhere on the way to the nonce would make (X, SHA-256(X)) share a nonce
+	h33, h1 := sha256.Sum256(m33), sha256.Sum256([]byte{0x42})
+	return keys, [][]byte{m, m33, {0x42}, h33[:], h1[:]}
 }
 
 var standaloneModes = []string{"nil", "zeros", "aa", "honest"}
@@ -689,7 +694,7 @@ func standaloneVerdict(mode string, a, b SCtx, x, y string) (string, string) {
 func standalone(res *vkit.Result, seed int64) (pairs, calls int) {
 	var ctxs []SCtx
 	for k := 0; k < 2; k++ {
-		for m := 0; m < 3; m++ {
+		for m := 0; m < 5; m++ {
 			ctxs = append(ctxs, SCtx{k, m})
 		}
 	}
